@@ -24,6 +24,7 @@ import (
 	"sync/atomic"
 	"time"
 
+	"github.com/zeromicro/go-zero/core/errorx"
 	"github.com/zeromicro/go-zero/core/mr"
 	"verifh/hx"
 )
@@ -49,6 +50,10 @@ type Case struct {
 	WorkersFirst *int   `json:"workers_first"`
 	Ctx          string `json:"ctx"`
 	Repeat       int    `json:"repeat"`
+	// API "atomic": errorx.AtomicError (the retErr of mapReduceWithPanicChan) driven directly.
+	// ["set", k] Set(value of code k; null = the nil interface), ["load"], ["conc", [k...]] one goroutine per
+	// code, all released together, each calling Set, all joined, then a Load.
+	AOps [][]any `json:"aops"`
 }
 
 // gateCtx parks one goroutine (the caller of the mr function) in its first call of Done().
@@ -90,6 +95,9 @@ type Out struct {
 	Census  int      `json:"census"`
 	Stacks  string   `json:"stacks,omitempty"`
 	Err     string   `json:"err,omitempty"`
+	// API "atomic": per op [panicked (0/1), loaded] - loaded = the code of the value Load returned, recognised by
+	// identity (-1 = none of the vocabulary, null = the nil interface); only for load / conc
+	AObs [][]any `json:"aobs,omitempty"`
 }
 
 type userPanic int
@@ -97,13 +105,33 @@ type cancelErr int
 
 func (c cancelErr) Error() string { return fmt.Sprintf("cancel-%d", int(c)) }
 
-// an error of another concrete (pointer) type
+// an error of another concrete (pointer) type; a nil *ptrErr in an error interface is the classic typed nil:
+// a non-nil error value (Error() on it panics)
 type ptrErr struct{ k int }
 
 func (p *ptrErr) Error() string { return fmt.Sprintf("ptr-%d", p.k) }
 
-// cancel codes >= 1000: error values that go-zero or the standard library treat specially,
-// bare and wrapped, and errors of other concrete types (retErr is an atomic.Value)
+// a comparable struct error with a value receiver
+type structErr struct {
+	k int
+	s string
+}
+
+func (e structErr) Error() string { return fmt.Sprintf("struct-%d%s", e.k, e.s) }
+
+// an error whose Error() panics
+type panickyErr struct{ k int }
+
+func (p *panickyErr) Error() string { panic("Error() of panickyErr called") }
+
+// an error of channel kind: chanErr(nil) is a typed nil that is not a pointer
+type chanErr chan int
+
+func (c chanErr) Error() string { return "chan-err" }
+
+// cancel / panic / Finish-result codes >= 1000: error values that go-zero or the standard library treat
+// specially, bare and wrapped, errors of other concrete types (retErr is an atomic.Value), typed nils.
+// Every value is comparable; results are recognised by identity (==), never through Error().
 var sentinels = map[int]error{
 	1001: mr.ErrCancelWithNil,
 	1002: mr.ErrReduceNoOutput,
@@ -115,6 +143,14 @@ var sentinels = map[int]error{
 	1008: &ptrErr{1008},
 	1009: errors.New("plain"),
 	1010: fmt.Errorf("wrapped: %w", mr.ErrCancelWithNil),
+	1011: (*ptrErr)(nil),
+	1012: structErr{1012, "s"},
+	1013: &panickyErr{1013},
+	1014: fmt.Errorf("wrapped: %w", context.Canceled),
+	1015: chanErr(nil),
+	1016: structErr{},
+	1017: errors.New(""),
+	1018: &ptrErr{1018},
 }
 
 func cancelErrOf(k int) error {
@@ -122,6 +158,38 @@ func cancelErrOf(k int) error {
 		return e
 	}
 	return cancelErr(k)
+}
+
+// panic codes: < 1000 userPanic(k); 2000 panic(nil) (a *runtime.PanicNilError since go 1.21); 2001 a string;
+// the error vocabulary above as panic values otherwise
+func panicValOf(k int) any {
+	switch {
+	case k == 2000:
+		return nil
+	case k == 2001:
+		return "user panic string"
+	case k >= 1000:
+		return cancelErrOf(k)
+	}
+	return userPanic(k)
+}
+
+// code of an error value, by identity over the whole vocabulary; ok=false: not a value of the vocabulary
+func codeOf(err error) (int, bool) {
+	if ce, ok := err.(cancelErr); ok {
+		return int(ce), true
+	}
+	ks := make([]int, 0, len(sentinels))
+	for k := range sentinels {
+		ks = append(ks, k)
+	}
+	sort.Ints(ks)
+	for _, k := range ks {
+		if err == sentinels[k] {
+			return k, true
+		}
+	}
+	return -1, false
 }
 
 var free = os.Getenv("VERIF_FREE") == "1"
@@ -231,7 +299,7 @@ func (r *runner) generate(source chan<- int) {
 		case "send":
 			source <- num(a[1])
 		case "panic":
-			panic(userPanic(num(a[1])))
+			panic(panicValOf(num(a[1])))
 		}
 	}
 	t.wait()
@@ -256,7 +324,7 @@ func (r *runner) userActs(t *thread, w mr.Writer[int], cancel func(error), pipe 
 				cancel(nil)
 			}
 		case "panic":
-			panic(userPanic(num(a[1])))
+			panic(panicValOf(num(a[1])))
 		case "recv":
 			if pipe != nil {
 				if v, ok := <-pipe; ok {
@@ -303,17 +371,17 @@ func (r *runner) fn(i int) (err error) {
 	case "cancel":
 		return cancelErrOf(num(a[1]))
 	case "panic":
-		panic(userPanic(num(a[1])))
+		panic(panicValOf(num(a[1])))
 	}
 	return nil
 }
 
-// the sentinel codes that occur in the scripts of the case
-func (r *runner) usedSentinels() []int {
+// the codes >= 1000 that occur in `kind` actions ("cancel" / "panic") of the scripts of the case
+func (r *runner) usedCodes(kind string) []int {
 	seen := map[int]bool{}
 	scan := func(sc [][]any) {
 		for _, a := range sc {
-			if a[0].(string) == "cancel" {
+			if a[0].(string) == kind {
 				if k := num(a[1]); k >= 1000 {
 					seen[k] = true
 				}
@@ -321,6 +389,7 @@ func (r *runner) usedSentinels() []int {
 		}
 	}
 	scan(r.c.Red)
+	scan(r.c.Gen)
 	for _, sc := range r.c.Maps {
 		scan(sc)
 	}
@@ -333,15 +402,36 @@ func (r *runner) usedSentinels() []int {
 }
 
 func (r *runner) classify(val int, err error, hasVal bool) []any {
-	// an error value that one of the scripts passed to cancel is recognised by identity
+	// an error value that one of the scripts passed to cancel is recognised by identity: the very same
+	// interface value (a typed nil is a non-nil error and is not the nil interface)
 	if err != nil {
-		for _, k := range r.usedSentinels() {
+		for _, k := range r.usedCodes("cancel") {
 			if err == sentinels[k] {
 				return []any{"cancel", k}
 			}
 		}
 	}
 	return classify(val, err, hasVal)
+}
+
+func (r *runner) classifyPanic(p any) []any {
+	for _, k := range r.usedCodes("panic") {
+		switch {
+		case k == 2000:
+			if _, ok := p.(*runtime.PanicNilError); ok {
+				return []any{"panic", k}
+			}
+		case k == 2001:
+			if p == any("user panic string") {
+				return []any{"panic", k}
+			}
+		default:
+			if e, ok := p.(error); ok && e == sentinels[k] {
+				return []any{"panic", k}
+			}
+		}
+	}
+	return classifyPanic(p)
 }
 
 func classify(val int, err error, hasVal bool) []any {
@@ -361,7 +451,17 @@ func classify(val int, err error, hasVal bool) []any {
 	if errors.As(err, &ce) {
 		return []any{"cancel", int(ce)}
 	}
-	return []any{"other", err.Error()}
+	return []any{"other", safeText(err)}
+}
+
+// Error() of a value of unknown origin may panic (typed nil, panickyErr)
+func safeText(err error) (s string) {
+	defer func() {
+		if recover() != nil {
+			s = fmt.Sprintf("%T (Error() panics)", err)
+		}
+	}()
+	return err.Error()
 }
 
 func classifyPanic(p any) []any {
@@ -374,10 +474,10 @@ func classifyPanic(p any) []any {
 		}
 		return []any{"other", v}
 	case error:
-		if strings.Contains(v.Error(), "send on closed channel") {
+		if strings.Contains(safeText(v), "send on closed channel") {
 			return []any{"panicclosed"}
 		}
-		return []any{"other", v.Error()}
+		return []any{"other", safeText(v)}
 	}
 	return []any{"other", fmt.Sprint(p)}
 }
@@ -385,7 +485,7 @@ func classifyPanic(p any) []any {
 func (r *runner) call(ctx context.Context) (res []any) {
 	defer func() {
 		if p := recover(); p != nil {
-			res = classifyPanic(p)
+			res = r.classifyPanic(p)
 		}
 	}()
 	w := r.c.Workers
@@ -469,7 +569,68 @@ func mrGoroutines() (int, string) {
 	return n, sb.String()
 }
 
+// errorx.AtomicError driven directly: Set / Load sequences, concurrent Sets
+func runAtomic(c Case) Out {
+	out := Out{ID: c.ID, Fired: [][2]bool{}, Acts: []int{}, Events: [][]any{}, Mapped: []int{}, Reduced: []int{},
+		Result: []any{"unit"}, AObs: [][]any{}}
+	var ae errorx.AtomicError
+	valOf := func(v any) error {
+		if v == nil {
+			return nil
+		}
+		return cancelErrOf(num(v))
+	}
+	set := func(v any) (panicked int) {
+		defer func() {
+			if recover() != nil {
+				panicked = 1
+			}
+		}()
+		ae.Set(valOf(v))
+		return 0
+	}
+	load := func() any {
+		e := ae.Load()
+		if e == nil {
+			return nil
+		}
+		k, _ := codeOf(e)
+		return k
+	}
+	for _, op := range c.AOps {
+		switch op[0].(string) {
+		case "set":
+			out.AObs = append(out.AObs, []any{set(op[1]), nil})
+		case "load":
+			out.AObs = append(out.AObs, []any{0, load()})
+		case "conc":
+			vs := op[1].([]any)
+			var wg sync.WaitGroup
+			var panicked atomic.Int32
+			start := make(chan struct{})
+			for _, v := range vs {
+				v := v
+				wg.Add(1)
+				go func() {
+					defer wg.Done()
+					<-start
+					if set(v) != 0 {
+						panicked.Store(1)
+					}
+				}()
+			}
+			close(start)
+			wg.Wait()
+			out.AObs = append(out.AObs, []any{int(panicked.Load()), load()})
+		}
+	}
+	return out
+}
+
 func runCase(c Case) Out {
+	if c.API == "atomic" {
+		return runAtomic(c)
+	}
 	out := Out{ID: c.ID, Fired: [][2]bool{}, Acts: []int{}, Events: [][]any{}, Mapped: []int{}, Reduced: []int{}}
 	r := &runner{c: c, maps: map[int]*thread{}}
 	r.foreach = c.API == "foreach" || c.API == "finishvoid"
